@@ -335,6 +335,75 @@ def gen_rect(rng, src, src_lines, spans, tb):
     return (a, b, d, e), 'random'
 
 
+def _stmt_chain(tree, ln, col_b):
+    """[(parent, field, index, stmt)] from the top-level statement down to the innermost statement-like containing the
+    point (0-based line, BYTE column); CPython positions only"""
+    chain = []
+    cur = tree
+    while True:
+        nxt = None
+        for f in BLOCK_FIELDS:
+            for i, s in enumerate(getattr(cur, f, None) or []):
+                if not isinstance(s, ast.AST):
+                    continue
+                if getattr(s, 'end_col_offset', None) is None:      # match_case: use its pattern .. last body statement
+                    a0, a1 = s.pattern, s.body[-1]
+                    lo, hi = (a0.lineno, a0.col_offset), (a1.end_lineno, a1.end_col_offset)
+                else:
+                    lo, hi = (s.lineno, s.col_offset), (s.end_lineno, s.end_col_offset)
+                if lo <= (ln + 1, col_b) <= hi:
+                    nxt = (cur, f, i, s)
+        if nxt is None:
+            return chain
+        chain.append(nxt)
+        cur = nxt[3]
+
+
+def _spans_in(nodes, lines):
+    out = []
+    for r in nodes:
+        for n in ast.walk(r):
+            if getattr(n, 'end_col_offset', None) is not None:
+                a, c = n.lineno - 1, n.end_lineno - 1
+                out.append((a, char_col(lines[a], n.col_offset), c, char_col(lines[c], n.end_col_offset)))
+    return out
+
+
+def gen_rect_near(rng, tree, lines, prev):
+    """a rectangle placed relative to the previous edit: in the same statement, a sibling statement, the header of the
+    parent block, or another top-level statement.  None if that place does not exist."""
+    ln, col = prev
+    ln = min(ln, len(lines) - 1)
+    col = min(col, len(lines[ln]))
+    chain = _stmt_chain(tree, ln, len(lines[ln][:col].encode()))
+    place = rng.choice(['same-stmt', 'sibling-stmt', 'parent-block', 'other-top-level', 'other-top-level'])
+    nodes = []
+    if place == 'same-stmt' and chain:
+        nodes = [chain[-1][3]]
+    elif place == 'sibling-stmt' and chain:
+        par, f, i, _ = chain[-1]
+        sibs = [x for j, x in enumerate(getattr(par, f)) if j != i]
+        nodes = [rng.choice(sibs)] if sibs else []
+    elif place == 'parent-block' and len(chain) >= 2:
+        par = chain[-2][3]
+        nodes = [v for f in par._fields if f not in BLOCK_FIELDS for v in
+                 (getattr(par, f) if isinstance(getattr(par, f, None), list) else [getattr(par, f, None)]) if isinstance(v, ast.AST)]
+    elif place == 'other-top-level':
+        top = chain[0][2] if chain else -1
+        others = [x for j, x in enumerate(tree.body) if j != top]
+        nodes = [rng.choice(others)] if others else []
+    sp = _spans_in(nodes, lines)
+    if not sp:
+        return None
+    a, b, c, d = rng.choice(sp)
+    k = rng.random()
+    if k < 0.5:
+        return (a, b, c, d), 'near:' + place
+    if k < 0.75:
+        return (a, b, a, b), 'near:' + place + ':point'
+    return (c, d, c, d), 'near:' + place + ':point'
+
+
 # ---------------------------------------------------------------------------------------------------------------------
 # position comparison and classification
 
@@ -533,15 +602,22 @@ def cpy_bloc(tree, lines, path):
 
 def run_sequence(arg):
     """(src, seed, k, ops) -> list of records (JSON-like)"""
-    src, seed, k, ops = arg
+    src, seed, k, ops = arg[:4]
+    script = arg[4] if len(arg) > 4 else None       # scripted history: [(new, ln, col, end_ln, end_col), ...] through put_src
+    if script:
+        k = len(script)
     from fst import FST
+    import fst.fst_core as fc
     rng = random.Random(seed)
     rec = recorder()
     out = []
+    fc._MODIFYING.clear()       # harness hygiene BEFORE the history starts (never during one)
     try:
         root = FST(src, 'exec')
     except Exception:
         return out
+    prev = None
+    hist = []
     for step in range(k):
         src0 = root.src
         tree0, _ = cpy_parse(src0)
@@ -558,9 +634,15 @@ def run_sequence(arg):
         r = {'src': src0, 'op': op, 'step': step}
         rid = id(root)
         call = None
-        if op == 'put_src':
+        if script:
+            new, *rect = script[step]
+            op = r['op'] = 'put_src'
+            r.update(rect=list(rect), new=new, rk='scripted-history', nk='scripted', on='Module')
+            call = lambda: root.put_src(new, *rect, 'reparse')
+        elif op == 'put_src':
             tb = token_bounds(src0)
-            rect, rk = gen_rect(rng, src0, lines, spans, tb)
+            near = gen_rect_near(rng, tree0, lines, prev) if prev is not None and rng.random() < 0.6 else None
+            rect, rk = near if near else gen_rect(rng, src0, lines, spans, tb)
             new, nk = gen_new(rng, lines, *rect, spans)
             on = root if rng.random() < 0.6 else (_pick_fst_node(root, rng) or root)
             r.update(rect=list(rect), new=new, rk=rk, nk=nk, on=on.a.__class__.__name__)
@@ -596,6 +678,15 @@ def run_sequence(arg):
             exc = e
         evs = rec.disarm()
         r['events'] = evs
+        if r['op'] == 'put_src':
+            if hist is not None and step:
+                r['history'] = {'src': src, 'edits': list(hist)}      # earlier put_src steps on the same tree, for the replay
+            if hist is not None:
+                hist.append([r['new'], *r['rect']])
+        else:
+            hist = None
+        r['registry'] = int(root in fc._MODIFYING)      # no entry for this tree may be left in the process-global registry after a call
+        prev = (r['rect'][0], r['rect'][1])
         r['root_same'] = id(root) == rid and root.root is root
         r['src_after'] = root.src
         try:
@@ -832,6 +923,11 @@ def phase_e(arg):
     excluded = R is None and new_src.endswith('\\\n')      # pfst convention: trailing line continuation accepted
     reached = m is not None
     res['tally']['valid_new_source'] = R is not None
+    # registry: nothing may be left behind by a call, whether it raised or returned
+    if r.get('registry'):
+        res['fail'].append((sig('registry-not-empty'),
+                            f'the entry of this tree is still in fst_core._MODIFYING after the call '
+                            f'({"raised " + raised[0] if raised else "returned"})'))
     # (d) root identity
     if not r['root_same']:
         res['fail'].append((sig('root-identity-changed'), 'the root object changed identity'))
@@ -845,7 +941,14 @@ def phase_e(arg):
                 res['fail'].append((sig('not-atomic'), f'raised {raised[0]} but source or tree changed'))
             return res
         if not reached:
-            res['tally']['refused_before_reparse'] = True     # argument validation of the put, not the reparse
+            if r['op'] == 'raw-put' and raised[0] in ('ValueError', 'NodeError', 'IndexError'):
+                res['tally']['refused_before_reparse'] = True     # argument validation of the node put (delete / insert contract)
+                return res
+            if R is not None:
+                res['fail'].append((sig(f'refuses-valid-source|before-reparse|{raised[0]}'),
+                                    f'raised {raised[0]}: {raised[1]} before the reparse was attempted although the new source is valid'))
+            else:
+                res['tally']['refused_before_reparse_invalid'] = True
             return res
     # rectangle actually used (raw put): must be the CPython span of the node
     rect_ev = ev_of(r, 'rect') if reached else None
